@@ -77,6 +77,8 @@ def _impl(tier, seed, search):
         if ok and un is not None:
             L.close('unitvec_norm:norm', un[1], mag, TOL, mag, dict(v=v)); L.close('unitvec_norm:unit', float(np.linalg.norm(un[0])), 1.0, TOL, 1.0, dict(v=v))
         q = g.normal(size=4); q = q / np.linalg.norm(q) * mag
+        if i % 3 == 0:                      # nearly unit: norm error 1e-15 .. 1e-2 either side
+            mag = 1.0 + float(g.choice([-1.0, 1.0])) * 10.0 ** g.uniform(-15, -2); q = q / np.linalg.norm(q) * mag
         ok, uq = L.noraise('q.unit', lambda: b.unit(q), dict(q=q), 'base.unit(q)')
         if ok:
             L.close('q.unit:unit', float(np.linalg.norm(uq)), 1.0, TOL, 1.0, dict(q=q)); L.close('q.unit:direction', uq * mag, q, TOL, mag, dict(q=q))
@@ -105,6 +107,9 @@ def _impl(tier, seed, search):
                 L.close('unittwist:unit-rotational-part', nw, 1.0, TOL, 1.0, dict(S=S)); L.close('unittwist:direction', us * np.linalg.norm(w), S, TOL, float(np.max(np.abs(S))), dict(S=S))
             elif np.linalg.norm(w) == 0:
                 L.close('unittwist:unit-translational-part', float(np.linalg.norm(us[:3])), 1.0, TOL, 1.0, dict(S=S))
+            else:       # rotational part below the zero threshold: either normalisation is a unit twist, nothing else is
+                L.check('unittwist:unit-either', min(abs(nw - 1.0), abs(float(np.linalg.norm(us[:3])) - 1.0)) <= TOL, dict(S=S),
+                        'unittwist of a twist with sub-threshold rotational part has neither unit rotational nor unit translational part')
             ok2, us2 = L.noraise('unittwist:idempotent', lambda: b.unittwist(us), dict(S=S), 'unittwist twice')
             if ok2 and us2 is not None and (np.linalg.norm(w) > 100 * 2.2e-16 or np.linalg.norm(w) == 0): L.close('unittwist:idempotent', us2, us, TOL, max(1.0, float(np.max(np.abs(us)))), dict(S=S))
             L.check('unittwist:isunittwist', bool(b.isunittwist(us, tol=100)) or not (np.linalg.norm(w) > 100 * 2.2e-16 or np.linalg.norm(w) == 0), dict(S=S), 'unittwist result is not a unit twist')
